@@ -225,6 +225,9 @@ def gen_commands(rng, voc, n, weights, spell_gdb=False):
                 cap = rng.choice([0, 1, 1, 2, 3, 5, 10, 1000])
                 text += ' ~ %d' % cap if (rng.random() < 0.7 or m is None) else '~%d' % cap
             out.append(['cmd', text, {'t': 'list', 'm': m, 'cap': cap}])
+        elif k == 'resume':
+            # harmless outside GDB mode; whatever it does, it is not a display command
+            out.append(['cmd', rng.choice(['resume', 'r', 'res', 'wl resume']), {'t': 'other'}])
         elif k == 'connection':
             word = rng.choice(['connection', 'c', 'conn'])
             r = rng.random()
